@@ -797,7 +797,7 @@ func vfxDrawCase(d *vfDraws, only string) *vfxCase {
 	recordLevel := entry == vfxERecords || entry == vfxEBatch || entry == vfxEMsgSet || entry == vfxEMessage
 	isFetch := entry == vfxEFetch || (entry == vfxEResp && pair.Type == vfxFetchIndex)
 
-	kind := d.vfN(20)
+	kind := d.vfN(24)
 	// pure noise
 	if kind <= 1 {
 		c.Input = vfxRandomBytes(d, kind == 1)
@@ -955,6 +955,21 @@ func vfxDrawCase(d *vfDraws, only string) *vfxCase {
 			return c2
 		}
 
+	case (kind == 21 || kind == 22) && (entry == vfxEBatch || entry == vfxERecords || isFetch):
+		// length clause inside a batch with the checksum recomputed: the record COUNT
+		// disagrees with a complete records section, or bytes follow the counted records;
+		// batch length and CRC-32C are correct, the section is re-compressed (all codecs)
+		if c2 := vfxDrawCountLie(d, c, v); c2 != nil {
+			return c2
+		}
+
+	case (kind == 23 || kind == 24) && (entry == vfxEMsgSet || entry == vfxERecords || entry == vfxEMessage || isFetch):
+		// the same one level up for legacy sets: bytes follow the complete messages of the
+		// inner set of a VALID compressed wrapper
+		if c2 := vfxDrawInnerTrailing(d, c, v); c2 != nil {
+			return c2
+		}
+
 	case (kind == 9 || kind == 10) && (recordLevel || isFetch || entry == vfxERecord):
 		// a hostile inner set / record area inside a VALID wrapper (correct size, CRC, codec)
 		if c2 := vfxDrawWrapped(d, c, v); c2 != nil {
@@ -1057,6 +1072,135 @@ func vfxDrawRecordSizeLie(d *vfDraws, c *vfxCase, v *vfxValid) *vfxCase {
 	}
 	c.Clause, c.Mut, c.Before = "size", fmt.Sprintf("size-lie:record-length codec=%d", codec), 0
 	c.MustError = true // the record's fields are all there; only its announced length disagrees
+	if v.Fetch != nil {
+		c.Topic, c.Partition = v.Fetch.Topics[0].Name, v.Fetch.Topics[0].Parts[0].ID
+	}
+	return c
+}
+
+func vfxDrawCountLie(d *vfDraws, c *vfxCase, v *vfxValid) *vfxCase {
+	b := vfDrawBatch(d, 0)
+	b.Control = false
+	if c.Entry == vfxEFetch {
+		b.FirstOffset = c.ChildOffset
+	}
+	var w vfW
+	for i := range b.Records {
+		vfWriteRecord(&w, &b.Records[i])
+	}
+	if w.b == nil {
+		w.b = []byte{}
+	}
+	n := int64(len(b.Records))
+	area := w.b
+	count := n
+	what := ""
+	switch k := d.vfN(5); {
+	case k <= 1 && n > 0: // fewer records announced than the section holds
+		count = int64(d.vfN(uint64(n - 1)))
+		if d.vfOneIn(6) {
+			count = -1 - int64(d.vfN(2))
+		}
+		what = "count-low"
+		c.MustError = true
+	case k == 2 || (k <= 1 && n == 0): // bytes follow the counted records
+		extra := vfxRandomBytes(d, true)
+		if len(extra) == 0 {
+			extra = []byte{0}
+		}
+		if len(extra) > 40 {
+			extra = extra[:1+d.vfIntn(40)]
+		}
+		if n > 0 && d.vfOneIn(3) {
+			// ... or a further complete record that the count does not cover
+			var x vfW
+			vfWriteRecord(&x, &b.Records[d.vfIntn(len(b.Records))])
+			extra = x.b
+		}
+		area = append(vfxClone(w.b), extra...)
+		what = "section-trailing"
+		c.MustError = true
+	default: // more records announced than the section holds: an error or a flagged partial batch
+		count = n + 1 + int64(d.vfN(3))
+		if d.vfOneIn(4) {
+			count = int64(len(area)) // the most getArrayLength lets through
+		}
+		what = "count-high"
+	}
+	codec := int8(d.vfN(4))
+	good, err1 := vfxWrapBatch(b, codec, int32(n), w.b)
+	bad, err2 := vfxWrapBatch(b, codec, int32(count), area)
+	if err1 != nil || err2 != nil {
+		return nil
+	}
+	c.Orig, c.Input = vfxPlaceRecords(c, v, good), vfxPlaceRecords(c, v, bad)
+	if c.Orig == nil || c.Input == nil {
+		return nil
+	}
+	c.Clause, c.Mut, c.Before = "count", fmt.Sprintf("count-lie:%s codec=%d", what, codec), 0
+	if v.Fetch != nil {
+		c.Topic, c.Partition = v.Fetch.Topics[0].Name, v.Fetch.Topics[0].Parts[0].ID
+	}
+	return c
+}
+
+func vfxDrawInnerTrailing(d *vfDraws, c *vfxCase, v *vfxValid) *vfxCase {
+	magic := int8(d.vfN(1))
+	if (c.Entry == vfxEResp || c.Entry == vfxEFetch) && c.Version < 2 {
+		magic = 0
+	}
+	k := 1 + int(d.vfN(2))
+	base := int64(d.vfN(1000))
+	if c.Entry == vfxEFetch {
+		base = c.ChildOffset
+	}
+	var blocks []vfMBlock
+	for j := 0; j < k; j++ {
+		off := base + int64(j)
+		if magic >= 1 {
+			off = int64(j)
+		}
+		blocks = append(blocks, vfMBlock{Offset: off, Msg: vfDrawPlainMessage(d, magic)})
+	}
+	var in vfW
+	if vfWriteSet(&in, &vfMSet{Blocks: blocks}) != nil {
+		return nil
+	}
+	extra := vfxRandomBytes(d, true)
+	if len(extra) == 0 {
+		extra = []byte{0}
+	}
+	if len(extra) > 60 {
+		extra = extra[:1+d.vfIntn(60)]
+	}
+	what := "noise"
+	if d.vfOneIn(3) {
+		// the head of a further message, cut short
+		var x vfW
+		_ = vfWriteSet(&x, &vfMSet{Blocks: []vfMBlock{{Offset: base + int64(k), Msg: vfDrawPlainMessage(d, magic)}}})
+		if len(x.b) > 1 {
+			extra = x.b[:1+d.vfIntn(len(x.b)-1)]
+			what = "cut-message"
+		}
+	}
+	codec := int8(1 + d.vfN(2))
+	ts := d.vfTimestampMs()
+	key := vfDrawPayload(d)
+	woff := base + int64(k) - 1
+	good, err1 := vfxWrapMessage(magic, codec, woff, ts, key, in.b)
+	bad, err2 := vfxWrapMessage(magic, codec, woff, ts, key, append(vfxClone(in.b), extra...))
+	if err1 != nil || err2 != nil {
+		return nil
+	}
+	if c.Entry == vfxEMessage {
+		c.Orig, c.Input = good[12:], bad[12:]
+	} else {
+		c.Orig, c.Input = vfxPlaceRecords(c, v, good), vfxPlaceRecords(c, v, bad)
+	}
+	if c.Orig == nil || c.Input == nil {
+		return nil
+	}
+	c.Clause, c.Mut, c.Before = "inner", fmt.Sprintf("inner-trailing:%s magic=%d codec=%d", what, magic, codec), 0
 	if v.Fetch != nil {
 		c.Topic, c.Partition = v.Fetch.Topics[0].Name, v.Fetch.Topics[0].Parts[0].ID
 	}
